@@ -1,5 +1,5 @@
 #![no_main]
-//! C09 / C06: fuzzer bytes drive the edited-builder-state strategy (pass-through RNG); the state goes
+//! C09 / C06: fuzzer bytes are decoded (harness/src/fuzzdecode.rs) into an edited builder state, which goes
 //! through the builder-vs-parser differential, the labelled single-aspect check and the soundness check.
 use libfuzzer_sys::fuzz_target;
 use verif_core::fuzzglue::{report, state_from_bytes};
